@@ -267,9 +267,60 @@ def problems():
     return out
 
 
+class Shapes(State):           # one attribute per container shape of the vocabulary (Mapping apart: known deepcopy finding)
+    pair: tuple[int, int] = (0, 0)
+    triple: tuple[int, str, float] = (0, "", 0.0)
+    var: tuple[int, ...] = ()
+    pairs: Sequence[tuple[int, int]] = ()
+    maybe: tuple[int, int] | None = None
+    names: Set[str] = frozenset()
+    nested: Sequence[Sequence[tuple[str, int]]] = ()
+    kind: Literal["a", "b"] = "a"
+    inner: Inner | None = None
+
+
+def repeated_validation():
+    """Deriving a copy re-validates: every validator is used again and again over the life of a class.  A second instance, a
+    copy, a deep copy and an update must come out exactly like the first validation did."""
+    out = []
+    args = dict(pair=(1, 2), triple=[3, "x", 4.5], var=[7, 8, 9], pairs=[(1, 2), [3, 4]], maybe=(5, 6), names={"n", "m"},
+                nested=[[("k", 1)], []], kind="b", inner=Inner(x=3))
+    want = dict(pair=(1, 2), triple=(3, "x", 4.5), var=(7, 8, 9), pairs=((1, 2), (3, 4)), maybe=(5, 6),
+                names=frozenset({"n", "m"}), nested=((("k", 1),), ()), kind="b", inner=Inner(x=3))
+    first = Shapes(**args)
+    for label, make in (("the first instance", lambda: first), ("a second instance", lambda: Shapes(**args)),
+                        ("copy.copy", lambda: copy.copy(first)), ("copy.deepcopy", lambda: copy.deepcopy(first)),
+                        ("updated()", lambda: first.updated()), ("updated(kind='b')", lambda: first.updated(kind="b")),
+                        ("updated(unknown=1)", lambda: first.updated(unknown=1)),
+                        ("a third instance", lambda: Shapes(**args)), ("a copy of a copy", lambda: copy.copy(copy.copy(first)))):
+        try:
+            got = make()
+        except Exception as e:  # noqa
+            out.append(f"{label} of a state with tuple / sequence / set attributes raised {e!r}")
+            continue
+        bad = [k for k, v in want.items() if strict(getattr(got, k)) != strict(v)]
+        if bad:
+            out.append(f"{label}: attribute {bad[0]} is {getattr(got, bad[0])!r}, expected {want[bad[0]]!r}")
+        elif got != first or first != got:
+            out.append(f"{label} is not equal to the original")
+    try:
+        u = first.updated(pair=(9, 8), var=[1])
+        if (u.pair, u.var, u.triple, first.pair, first.var) != ((9, 8), (1,), (3, "x", 4.5), (1, 2), (7, 8, 9)):
+            out.append(f"updated(pair=(9, 8), var=[1]) gave pair={u.pair!r} var={u.var!r} triple={u.triple!r}; original pair={first.pair!r}")
+    except Exception as e:  # noqa
+        out.append(f"updated(pair=(9, 8), var=[1]) raised {e!r}")
+    for bad_kwargs in (dict(pair=("a", 2)), dict(pair=(1, 2, 3)), dict(triple=(1, 2, 3)), dict(pairs=[(1,)]), dict(kind="c")):
+        try:
+            first.updated(**bad_kwargs)
+            out.append(f"updated({bad_kwargs}) was accepted: the replacement value is not re-validated")
+        except Exception:  # noqa
+            pass
+    return out
+
+
 def main():
     sys.stdin.read()
-    p = problems()
+    p = problems() or repeated_validation()
     if p:
         print(json.dumps(dict(reproduced=True, detail=dict(problems=p[:5]), cases_tried=1)))
     else:
